@@ -9,6 +9,7 @@ package main
 
 import (
 	"fmt"
+	"os"
 	"reflect"
 	"sort"
 	"strings"
@@ -130,10 +131,37 @@ func (e *Engine) mergeIf(st *State, f *Frame, c *Term) []*State {
 	budget := e.bound("merge-budget-states", 48)
 	arrived, others := e.subExplore([]*State{a, b}, level, budget)
 	if len(arrived) < 2 {
+		e.noteMerge(f, fmt.Sprintf("arrived=%d others=%d", len(arrived), len(others)))
 		return append(arrived, others...)
 	}
 	merged := e.mergeStates(st, arrived)
+	e.noteMerge(f, fmt.Sprintf("arrived=%d others=%d merged-into=%d", len(arrived), len(others), len(merged)))
 	return append(merged, others...)
+}
+
+func (e *Engine) noteMerge(f *Frame, what string) {
+	if !e.verbose {
+		return
+	}
+	k := fmt.Sprintf("MERGE %s b%d: %s", f.fn.Name(), f.blk.Index, what)
+	e.mu.Lock()
+	if e.forkHist == nil {
+		e.forkHist = map[string]int{}
+	}
+	e.forkHist[k]++
+	e.mu.Unlock()
+}
+
+func (e *Engine) noteWhy(why string) {
+	if !e.verbose {
+		return
+	}
+	e.mu.Lock()
+	if e.forkHist == nil {
+		e.forkHist = map[string]int{}
+	}
+	e.forkHist["NOMERGE "+why]++
+	e.mu.Unlock()
 }
 
 // subExplore runs states until they arrive at stop `level`, end, or the budget is exhausted.
@@ -188,6 +216,8 @@ func (e *Engine) subExplore(init []*State, level, budget int) (arrived, others [
 	return
 }
 
+type missingObj struct{}
+
 type diffLoc struct {
 	kind string // "reg", "heap"
 	reg  ssa.Value
@@ -228,8 +258,12 @@ func (e *Engine) mergeStates(base *State, sts []*State) []*State {
 				}
 			}
 		}
+		if !ok {
+			e.noteWhy(fmt.Sprintf("basic: inputs %d/%d events %d/%d tags %d/%d", len(s.inputs), len(ref.inputs), len(s.events), len(ref.events), len(s.tags), len(ref.tags)))
+		}
 		if ok && !ghostCompatible(base, s, ref) {
 			ok = false
+			e.noteWhy("ghost")
 		}
 		if ok {
 			cand = append(cand, s)
@@ -285,7 +319,7 @@ func (e *Engine) mergeStates(base *State, sts []*State) []*State {
 			}
 		}
 	}
-	// heap objects
+	// heap objects: a location whenever some candidates differ or lack the object
 	ids := map[int]bool{}
 	for _, s := range cand {
 		for id := range s.heap.objs {
@@ -299,45 +333,104 @@ func (e *Engine) mergeStates(base *State, sts []*State) []*State {
 	sort.Ints(idList)
 	for _, id := range idList {
 		vals := make([]Value, len(cand))
-		same := true
-		missing := false
+		var first Value
+		differ, missing := false, false
 		for i, s := range cand {
 			v, ok := s.heap.objs[id]
 			if !ok {
 				missing = true
+				vals[i] = missingObj{}
+				continue
 			}
 			vals[i] = v
-			if i > 0 && !sameValue(vals[0], v) {
-				same = false
+			if first == nil {
+				first = v
+			} else if !sameValue(first, v) {
+				differ = true
 			}
 		}
-		if missing || same {
-			continue // objects allocated on one side only are kept as they are (union below)
+		_ = missing
+		if !differ {
+			continue // identical wherever present; the union below keeps the single version
 		}
 		locs = append(locs, locVals{loc: diffLoc{kind: "heap", obj: id}, vals: vals})
 	}
-	// group candidates by the shape of their differing values
-	sig := make([]string, len(cand))
+	// greedy grouping: a candidate joins a group when, at every location, its value has the
+	// group's shape (an object the candidate never allocated is compatible with anything)
+	shapes := make([][]string, len(cand))
 	for i := range cand {
-		var sb strings.Builder
-		for _, l := range locs {
-			sb.WriteString(deepShape(l.vals[i]))
-			sb.WriteByte(';')
+		shapes[i] = make([]string, len(locs))
+		for li, l := range locs {
+			if _, m := l.vals[i].(missingObj); m {
+				shapes[i][li] = ""
+			} else {
+				shapes[i][li] = deepShape(l.vals[i])
+			}
 		}
-		sig[i] = sb.String()
+	}
+	if e.verbose && os.Getenv("GOSYM_DEBUGMERGE") != "" {
+		for i := range cand {
+			fmt.Fprintf(os.Stderr, "MERGESIG cand %d: %v\n", i, shapes[i])
+		}
+	}
+	type grp struct {
+		shape []string
+		idx   []int
+	}
+	var grps []*grp
+	for i := range cand {
+		placed := false
+		for _, g := range grps {
+			ok := true
+			for li := range locs {
+				if shapes[i][li] != "" && g.shape[li] != "" && shapes[i][li] != g.shape[li] {
+					ok = false
+					break
+				}
+			}
+			if ok {
+				for li := range locs {
+					if g.shape[li] == "" {
+						g.shape[li] = shapes[i][li]
+					}
+				}
+				g.idx = append(g.idx, i)
+				placed = true
+				break
+			}
+		}
+		if !placed {
+			grps = append(grps, &grp{shape: append([]string(nil), shapes[i]...), idx: []int{i}})
+		}
 	}
 	groups := map[string][]int{}
 	var order []string
-	for i, s := range sig {
-		if _, ok := groups[s]; !ok {
-			order = append(order, s)
-		}
-		groups[s] = append(groups[s], i)
+	for gi, g := range grps {
+		k := fmt.Sprint(gi)
+		order = append(order, k)
+		groups[k] = g.idx
 	}
 	for _, k := range order {
 		idx := groups[k]
 		if len(idx) == 1 {
 			out = append(out, cand[idx[0]])
+			if len(order) > 1 {
+				// find the first location whose shape differs from candidate 0
+				for _, l := range locs {
+					if deepShape(l.vals[idx[0]]) != deepShape(l.vals[0]) {
+						d := deepShape(l.vals[idx[0]])
+						if len(d) > 60 {
+							d = d[:60]
+						}
+						nm := ""
+						if l.loc.reg != nil {
+							nm = l.loc.reg.Name()
+						}
+						e.noteWhy(fmt.Sprintf("shape %s %s obj%d: %s", l.loc.kind, nm, l.loc.obj, d))
+						break
+					}
+				}
+			}
 			continue
 		}
 		m := cand[idx[0]]
@@ -372,11 +465,23 @@ func (e *Engine) mergeStates(base *State, sts []*State) []*State {
 		m.pc = base.pc
 		m.flatCache = base.flatCache
 		for _, l := range locs {
-			vals := make([]Value, len(idx))
+			var vals []Value
+			var who []int
 			for gi, j := range idx {
-				vals[gi] = l.vals[j]
+				if _, miss := l.vals[j].(missingObj); miss {
+					continue
+				}
+				vals = append(vals, l.vals[j])
+				who = append(who, gi)
 			}
-			mv := e.mergeDeep(m, vals, eqs)
+			if len(vals) == 0 {
+				continue
+			}
+			sub := make([][]*Term, len(vals))
+			mv := e.mergeDeep(m, vals, sub)
+			for k, gi := range who {
+				eqs[gi] = append(eqs[gi], sub[k]...)
+			}
 			switch l.loc.kind {
 			case "reg":
 				m.threads[l.ti].frames[l.fi].regs[l.loc.reg] = mv
@@ -455,7 +560,7 @@ func deepShape(v Value) string {
 	case *Term:
 		return "T" + x.sort.String()
 	case *Str:
-		return "S"
+		return strShape(x)
 	case TimeV:
 		return "Time"
 	case FloatV:
